@@ -1,5 +1,5 @@
 #!/usr/bin/env python3
-"""crossmatrix.py [workers]: every kept seeded change x every property check (quick tier, scratch copies, never /repo).
+"""crossmatrix.py [workers] [diag]: every kept seeded change x every property check (quick tier, scratch copies, never /repo).
 Writes gen/crossmatrix.json: {seed: {prop: rc}}.  A development aid: cells outside the diagonal that show rc 1 are looked at by
 hand (does the change really violate that property too?)."""
 import glob, json, os, shutil, subprocess, sys, tempfile
@@ -8,6 +8,7 @@ V = os.path.dirname(os.path.dirname(os.path.abspath(__file__)))
 props = sorted(json.load(open(os.path.join(V, 'vp', 'props.json'))))
 seeds = sorted(os.path.basename(os.path.dirname(p)) for p in glob.glob(os.path.join(V, 'seeded', '*', 'patch.diff')))
 workers = int(sys.argv[1]) if len(sys.argv) > 1 else 4
+diag = len(sys.argv) > 2 and sys.argv[2] == 'diag'   # only the seed's own property
 res = {}
 
 def job(seed):
@@ -18,7 +19,7 @@ def job(seed):
         r = subprocess.run(['patch', '-p1', '-s', '-i', os.path.join(V, 'seeded', seed, 'patch.diff')], cwd=d, capture_output=True, text=True)
         if r.returncode != 0:
             return seed, {'error': 'patch does not apply'}
-        for p in props:
+        for p in ([seed.split('-')[0]] if diag else props):
             q = subprocess.run([sys.executable, os.path.join(V, 'vp', 'check.py'), p, '--no-evidence'], env=dict(os.environ, VP_REPO=d, VP_GEN=d + '_gen'), capture_output=True, text=True)
             viol = [l.split('replay=')[1].split('/')[-1][:90] for l in q.stdout.split('\n') if l.startswith('VIOLATION')]
             out[p] = {'rc': q.returncode, 'violations': viol[:4]}
@@ -31,5 +32,5 @@ with ThreadPoolExecutor(max_workers=workers) as ex:
     for seed, out in ex.map(job, seeds):
         res[seed] = out
         os.makedirs(os.path.join(V, 'gen'), exist_ok=True)
-        json.dump(res, open(os.path.join(V, 'gen', 'crossmatrix.json'), 'w'), indent=1)
+        json.dump(res, open(os.path.join(V, 'gen', 'diagonal.json' if diag else 'crossmatrix.json'), 'w'), indent=1)
 print('done', len(res))
